@@ -24,6 +24,13 @@ CLAIMED["C12"] = dict(
    ref="DESIGN.md §4 C12")
 
 
+CLAIMED["C14"] = dict(
+   text="Exhaustively compares the leap-second tables as compiled into the library (six parallel encodings, extracted by the compiler front end) with lib/leap-seconds.list: lengths, sentinels, +1 steps, instants, and the day/ymd/ymcw/hms encodings computed independently from the record layouts and a first-principles calendar; and decides the structure of every lookup: the bisection returns an index only for an interval that contains the key (found-guard / lower-bound rule, strict progress), 64-bit instants are never narrowed to the 32-bit key type without a two-sided clamp (so the last offset stays in force for ever), table indices are used only as indices (never as a count of seconds), and [i+1] reads are bounded. Does not decide the SI-second arithmetic around the looked-up correction.",
+   note="Trusted: leap-seconds.list as authority; NTP epoch offset 2208988800; clang constant evaluation of the initialisers; gcc and clang agree on bit-field layout of dt_ymd_t/dt_ymcw_t/dt_hms_t (SysV ABI).",
+   technique="static analysis: table extraction and comparison with an independent oracle; CFG reachability for the search loops; guard analysis of narrowing conversions; def-use typing of index variables",
+   ref="DESIGN.md §4 C14")
+
+
 def main():
     props = [json.loads(l)["id"] for l in open(os.path.join(HERE, "properties.jsonl"))]
     checks = []
